@@ -109,10 +109,17 @@ struct Trk
 {
     static_assert(N >= 5);
     unsigned char b[N];
+    // the canary depends on the object's own address: an object whose bytes were copied by memcpy/memmove/byte swap
+    // instead of going through its constructors or assignment carries the tag of another address
+    static unsigned char tag(const void* p)
+    {
+        auto a = reinterpret_cast<std::uintptr_t>(p);
+        return static_cast<unsigned char>((a ^ (a >> 8) ^ (a >> 16) ^ (a >> 24)) | 1);
+    }
     void set(std::uint32_t id)
     {
         std::memcpy(b, &id, 4);
-        b[4] = 0xA5;
+        b[4] = tag(this);
         for (std::size_t i = 5; i < N; ++i) b[i] = static_cast<unsigned char>(0xC0 + i);
     }
     std::uint64_t id() const
@@ -124,7 +131,7 @@ struct Trk
     void check(const char* what) const
     {
         Life::get().need_live(this, what);
-        if (b[4] != 0xA5) violation(std::string("life:canary-clobbered what=") + what);
+        if (b[4] != tag(this)) violation(std::string("life:object-bytes-relocated-or-clobbered what=") + what);
     }
     explicit Trk(std::uint64_t id)
     {
